@@ -79,6 +79,11 @@ def specs_corpus(tier):
             for off in (False, True):
                 s.append((AE, "unit_eval", {"alg_name": a, "term_name": tn, "have_offdiag": off, "timeout_ms": t}))
     s.append((AE, "unit_eval", {"alg_name": "corpus:adj_unconditional", "term_name": "C", "have_offdiag": True, "timeout_ms": t, "canary": True}))
+    # series_computation itself on corpus programs: start data (0 / 1 / "<input>_0" incl. input names ending in digits or underscores / none), products, twins, deletions
+    progs = corpus_programs() if tier == "thorough" else ["start_from_input", "input_names_ending_in_zero_or_underscore", "identity_start_consumes_started_term", "no_start", "markers",
+                                                        "hermitian_triple_product", "no_start_consumes_started_term"]
+    for prog in progs:
+        s.append((AE, "unit_wiring", {"alg_name": "corpus:" + prog, "nblocks": 2, "ninf": 1, "with_scope": False, "timeout_ms": t}))
     return s
 
 
